@@ -41,6 +41,14 @@ class C12(FprCheck):
                 yield {"t": "converge", "ref": ref, "conf": ci, "tr": None, "opts": dict(o, level=-1),
                        "queries": [{"level": -1, "bits": None, "mask": []}, {"level": 3, "bits": None, "mask": []}]}
 
+        for _ in range(8 if self.tier == "quick" else 150):
+            ref = dict(rng.choice([r for r in self.refs() if "smiles" in r or "sdf" in r]), scales=[1.0, 0.55, 1.6, 2.4, 0.8])
+            o = MG.gen_opts(rng, level=rng.choice([2, 3, 4, 5, 6]))
+            o["radius_multiplier"] = rng.choice([1.0, 1.3, 1.718, 1.718, 2.0])
+            o["remove_duplicate_substructs"] = True
+            o["bits"] = 2 ** 32
+            self.count("reused-fingerprinter-over-scaled-conformers")
+            yield {"t": "shared", "ref": ref, "conf": 0, "tr": None, "opts": o, "queries": [], "order": [rng.randrange(15) for _ in range(rng.randint(3, 5))]}
         # shell radii that coincide bit for bit with an interatomic distance of the conformer (radius_multiplier = d / k for
         # k in {1, 2, 4}: k * (d / k) == d exactly): the pair lies *on* the level-k sphere, "within" means <=, and a run limited
         # to k must see it exactly as level k of a longer run does
@@ -69,6 +77,30 @@ class C12(FprCheck):
             yield {"t": "long", "ref": ref, "conf": ci, "tr": None, "opts": o, "tie_level": k,
                    "queries": [{"level": q, "bits": None, "mask": []} for q in list(range(0, self.L + 4)) + [-1]]}
 
+    def _shared(self, case):
+        """one fingerprinter object reused over conformers of one molecule that converge at different levels (scaled copies), its
+        level between those levels: every level of every run equals a fresh run limited to that level, -1 equals convergence"""
+        o = case["opts"]
+        mol = MG.load_ref(case["ref"])
+        if not MG.in_domain(mol, o):
+            return None
+        L = o["level"]
+        shared = MG.make_fprinter(o)
+        order = case["order"]
+        for step, ci in enumerate(order):
+            ci = ci % mol.GetNumConformers()
+            conf = mol.GetConformer(ci)
+            shared.run(conf, mol)
+            for k in list(range(0, L + 1)) + [-1]:
+                f2 = MG.make_fprinter(dict(o, level=L if k == -1 else k))
+                f2.run(conf, mol)
+                a, b = dump_fp(shared.get_fingerprint_at_level(k)), dump_fp(f2.get_fingerprint_at_level(k))
+                if a != b:
+                    return {"key": "truncation-differs:reused-fingerprinter",
+                            "what": "conformer %d (step %d of one fingerprinter run to level %d over conformers %s): level %d has %d set positions, a fresh run limited to it %d" % (
+                                ci, step, L, order, k, len(a["idx"]), len(b["idx"]))}
+        return None
+
     def _watched(self, o, mol, conf, fp):
         """the same run driven step by step through the iterator protocol, asked for fingerprints between the steps"""
         w = MG.make_fprinter(o)
@@ -93,6 +125,8 @@ class C12(FprCheck):
         return None
 
     def prop(self, case):
+        if case["t"] == "shared":
+            return self._shared(case)
         if case["t"] != "long":
             return None
         o = case["opts"]
